@@ -11,7 +11,7 @@ Vocabulary (Model/Container/Mp4.lean, Proofs/Container/Mp4.lean):
   `updateParents`                     __update_parents on the bytes, at the offsets of the path atoms
   `parse`, `regionOf`, `saveAt`       mutagen's parser, the region MP4Tags.__save replaces, and the bookkeeping
                                       of the save on the bytes (splice, __update_parents, __update_offsets)
-  `visited atoms`                     the stco/co64/tfhd atoms __update_offsets visits (first moov, first moof)
+  `visited atoms`                     the stco/co64/tfhd atoms __update_offsets visits (first moov, every top-level moof)
   `allTables atoms`                   the stco/co64/tfhd atoms below every top-level moov / moof
 What is written INTO the region (ilst, free, meta/udta wrappers) is a parameter; the tie between
 `saveAt` and the code is the correspondence check of harness/props/c10.py (byte equality with the
@@ -115,7 +115,7 @@ def TableFollows (f g : Bytes) (parents atoms : List PAtom) (o old : Nat) (delta
 /-- The statement of C10 about offsets, for the bookkeeping `saveAt` of the model.  For every
 file `f`, whatever atoms the parser returned for it, whatever region `[o, o+old)` is replaced
 by whatever bytes `new`: if the save finishes without an exception, the file has exactly one
-top-level `moov` [and, when `oneMoof`, at most one top-level `moof`], and the side conditions
+top-level `moov` (any number of top-level `moof` fragments), and the side conditions
 `SaveSafe` hold (table atoms at least 12 bytes long, with the 8-byte header form, inside the file,
 outside the replaced region, pairwise disjoint and clear of the path atoms' size fields — all
 decidable; the driver evaluates them on every save of the correspondence run), then EVERY stco /
@@ -123,23 +123,24 @@ co64 / tfhd atom below a top-level moov / moof follows the data.  With the 8-byt
 entries the code works on are the entries of the payload as ISO 14496-12 defines them
 (`tblEntries_spec`, `tfhd_spec` in Proofs/Container/Mp4.lean); a table atom written with a 64-bit
 size header is outside the statement (and is in fact mishandled: key `…:wide-table` / `…:wide-tfhd`). -/
-def ChunkOffsetsFollow (oneMoof : Bool) : Prop :=
+def ChunkOffsetsFollow : Prop :=
   ∀ (f : Bytes) (atoms parents : List PAtom) (o old : Nat) (new g : Bytes),
     saveAt f atoms parents o old new = (none, g) →
     (atoms.filter (·.name = nMoov)).length = 1 →
-    (oneMoof = true → (atoms.filter (·.name = nMoof)).length ≤ 1) →
     SaveSafe f atoms parents o old ((new.length : Int) - old) →
     ∀ t ∈ allTables atoms, TableFollows f g parents atoms o old ((new.length : Int) - old) t
 
-/-- `chunk_offsets_follow_partial`: C10's offset statement holds for the model when the file has
-at most one top-level `moof`.  (Proved for ALL byte strings `f` and parser results `atoms`, not
-only for rendered trees: the hypotheses that matter are the decidable side conditions `SaveSafe`.
+/-- `chunk_offsets_follow_partial`: C10's offset statement holds for the model, for any number of
+movie fragments.  (Proved for ALL byte strings `f` and parser results `atoms`, not only for
+rendered trees: the hypotheses that matter are the decidable side conditions `SaveSafe`.
 Windows that are not `MediaClear` — offsets into the tag region or into a size field / offset
-table — are not media and are outside the statement.) -/
-theorem chunk_offsets_follow_partial : ChunkOffsetsFollow true := by
-  intro f atoms parents o old new g hs hmoov hmoof hsafe t ht
-  obtain ⟨hsz, hpw, hclear, hin, _⟩ := hsafe
-  rw [← visited_eq_allTables atoms hmoov (hmoof rfl)] at ht
+table — are not media and are outside the statement.  "Partial": table atoms written with a 64-bit
+size header are excluded by `SaveSafe`; the code mishandles them, see known_findings.json.) -/
+theorem chunk_offsets_follow_partial : ChunkOffsetsFollow := by
+  intro f atoms parents o old new g hs hmoov hsafe t ht
+  obtain ⟨hsz, hpw, hclear, hin, h8⟩ := hsafe
+  rw [saveAt_eq_saveAt8 f atoms parents o old new h8] at hs
+  rw [← visited_eq_allTables atoms hmoov] at ht
   refine ⟨fun hw => ?_, fun hw => ?_⟩
   · obtain ⟨h1, h2⟩ := table_patched f atoms parents o old new g hs hsz hpw t ht hw (hclear t ht) (hin t ht)
     refine ⟨h1, h2, fun e _ n hm => ?_⟩
@@ -174,29 +175,25 @@ def twoMoofNew : Bytes :=
 
 def twoMoofSaved : Option PyErr × Bytes := saveRegion twoMoof (fun _ => twoMoofNew)
 
-/-- `moof_counterexample`: C10 is FALSE for the code as modelled when the file has two top-level
-`moof` atoms.  The save of `twoMoof` finishes without an exception, the result is a well-formed
-atom tree, the first fragment's base offset went from 84 to 96 together with its data ("AAAA"),
-but the second fragment's `tfhd` still says 136 while its data ("BBBB") now lives at 148:
-`atoms[b"moof"]` is only the first `moof`.  (The harness replays the same bytes on the real code
-on every run and reports it under the key `mp4:tfhd-stale:second-moof`.) -/
-theorem moof_counterexample :
+/-- `two_moof_instance`: with two top-level `moof` atoms both fragments' base offsets follow their
+data: 84 → 96 with "AAAA", 136 → 148 with "BBBB".  (Before the repair recorded in
+known_findings.json only the first `moof` was visited and the second `tfhd` kept 136; the harness
+replays the same bytes on the real code on every run, key `mp4:tfhd-stale:second-moof`.) -/
+theorem two_moof_instance :
     twoMoofSaved.1 = none ∧
     (walkFile twoMoof).map File.offsets = some [84, 136] ∧
-    (walkFile twoMoofSaved.2).map File.offsets = some [96, 136] ∧
+    (walkFile twoMoofSaved.2).map File.offsets = some [96, 148] ∧
     readAt twoMoof 84 4 = [0x41, 0x41, 0x41, 0x41] ∧ readAt twoMoofSaved.2 96 4 = [0x41, 0x41, 0x41, 0x41] ∧
-    readAt twoMoof 136 4 = [0x42, 0x42, 0x42, 0x42] ∧ readAt twoMoofSaved.2 136 4 ≠ [0x42, 0x42, 0x42, 0x42] ∧
-    readAt twoMoofSaved.2 148 4 = [0x42, 0x42, 0x42, 0x42] ∧
-    offsetsFollow twoMoof twoMoofSaved.2 4 = false := by
+    readAt twoMoof 136 4 = [0x42, 0x42, 0x42, 0x42] ∧ readAt twoMoofSaved.2 148 4 = [0x42, 0x42, 0x42, 0x42] ∧
+    offsetsFollow twoMoof twoMoofSaved.2 4 = true := by
   decide +kernel
 
 /-- the parser's atoms and the region of the witness -/
 def twoMoofAtoms : List PAtom := match parse twoMoof with | .ok a => a | .error _ => []
 def twoMoofParents : List PAtom := match regionOf twoMoofAtoms with | some R => R.parents | none => []
 
-/-- everything `ChunkOffsetsFollow` assumes — except "at most one moof" — holds for the witness:
-the region is `[28, 36)`, the save finishes, there is one `moov`, the side conditions hold; and
-the second `tfhd` (at 92, after the save at 104) is in `allTables` but not in `visited` -/
+/-- the hypotheses of `chunk_offsets_follow_partial` hold for the two-fragment file, and both
+`tfhd` atoms are visited -/
 theorem witness_facts :
     (regionOf twoMoofAtoms).map (fun R => (R.offset, R.length)) = some (28, 8) ∧
     (saveAt twoMoof twoMoofAtoms twoMoofParents 28 8 twoMoofNew).1 = none ∧
@@ -204,39 +201,10 @@ theorem witness_facts :
     (twoMoofAtoms.filter (·.name = nMoof)).length = 2 ∧
     SaveSafe twoMoof twoMoofAtoms twoMoofParents 28 8 12 ∧
     (allTables twoMoofAtoms).map (fun t => (t.1, t.2.offset, t.2.length)) = [(0, 52, 24), (0, 104, 24)] ∧
-    (visited twoMoofAtoms).map (fun t => (t.1, t.2.offset, t.2.length)) = [(0, 52, 24)] := by
+    (visited twoMoofAtoms).map (fun t => (t.1, t.2.offset, t.2.length)) = [(0, 52, 24), (0, 104, 24)] := by
   decide +kernel
 
-/-- `chunk_offsets_follow_counterexample`: without the hypothesis "at most one top-level moof"
-the statement is false — refuted on `twoMoof` -/
-theorem chunk_offsets_follow_counterexample : ¬ ChunkOffsetsFollow false := by
-  intro h
-  obtain ⟨_, hsave, hmoov, _, hsafe, _, _⟩ := witness_facts
-  have hs : saveAt twoMoof twoMoofAtoms twoMoofParents 28 8 twoMoofNew =
-      (none, (saveAt twoMoof twoMoofAtoms twoMoofParents 28 8 twoMoofNew).2) := by
-    rw [← hsave]
-  -- the second tfhd
-  have hfacts : ((allTables twoMoofAtoms)[1]?).map (fun t => (t.1, t.2.offset, t.2.length)) = some (0, 104, 24) := by
-    decide +kernel
-  cases ht : (allTables twoMoofAtoms)[1]? with
-  | none => rw [ht] at hfacts; cases hfacts
-  | some t =>
-    rw [ht] at hfacts
-    simp only [Option.map_some, Option.some.injEq, Prod.mk.injEq] at hfacts
-    obtain ⟨h0, hoff, hlen⟩ := hfacts
-    have hmem : t ∈ allTables twoMoofAtoms := List.mem_of_getElem? ht
-    have := h twoMoof twoMoofAtoms twoMoofParents 28 8 twoMoofNew _ hs hmoov (by simp) hsafe t hmem
-    have hsh : shifted t.2 ((twoMoofNew.length : Int) - (8 : Nat)) 28 = 116 := by
-      simp [shifted, hoff, twoMoofNew]
-    have hb : tfhdHasBase twoMoof t.2.offset t.2.length := by
-      rw [hoff, hlen]; unfold tfhdHasBase; decide +kernel
-    have hv := ((this.2 h0).2 hb).1
-    rw [hsh, hoff, hlen] at hv
-    revert hv
-    unfold tfhdBaseAt
-    decide +kernel
-
-/-! ### two more layouts the parser accepts on which the modelled code breaks the tree -/
+/-! ### two more layouts the parser accepts (broken before the repairs recorded in known_findings.json) -/
 
 /-- `mdat "AAAA"` followed by a LAST atom `moov(udta(meta(ilst)))` written with size field 0
 ("extends to the end of the file", ISO 14496-12 §4.2) — 48 bytes -/
@@ -245,17 +213,16 @@ def size0Moov : Bytes :=
    0x6d, 0x6f, 0x6f, 0x76, 0x00, 0x00, 0x00, 0x1c, 0x75, 0x64, 0x74, 0x61, 0x00, 0x00, 0x00, 0x14,
    0x6d, 0x65, 0x74, 0x61, 0x00, 0x00, 0x00, 0x00, 0x00, 0x00, 0x00, 0x08, 0x69, 0x6c, 0x73, 0x74]
 
-/-- `size0_moov_counterexample`: `__update_parents` adds `delta` to the size field 0 of a `moov`
-that extends to the end of the file: the save finishes, and the `moov` now claims 12 bytes while
-it holds 48 — the strict walker rejects the result.  (Real code: same bytes; with a negative
-`delta` the save stops with MP4MetadataError after the file was modified.  Key
-`mp4:parent-size:size0-moov`.) -/
-theorem size0_moov_counterexample :
+/-- `size0_moov_instance`: `__update_parents` leaves the size field 0 of a `moov` that extends to
+the end of the file alone: the save finishes, the field still reads 0, and the strict walker
+accepts the result (60 bytes).  (Before the repair `delta` was added to the 0 and the `moov`
+claimed 12 bytes; key `mp4:parent-size:size0-moov`.) -/
+theorem size0_moov_instance :
     (walkFile size0Moov).isSome = true ∧
     (saveRegion size0Moov (fun _ => twoMoofNew)).1 = none ∧
-    readAt (saveRegion size0Moov (fun _ => twoMoofNew)).2 12 8 = [0, 0, 0, 12, 0x6d, 0x6f, 0x6f, 0x76] ∧
+    readAt (saveRegion size0Moov (fun _ => twoMoofNew)).2 12 8 = [0, 0, 0, 0, 0x6d, 0x6f, 0x6f, 0x76] ∧
     (saveRegion size0Moov (fun _ => twoMoofNew)).2.length = 60 ∧
-    (walkFile (saveRegion size0Moov (fun _ => twoMoofNew)).2).isSome = false := by
+    (walkFile (saveRegion size0Moov (fun _ => twoMoofNew)).2).isSome = true := by
   decide +kernel
 
 /-- `moov(udta(meta(ilst, "xyz "(2 bytes), free(4 bytes))))  mdat "AAAA"` — `ilst` is the FIRST
@@ -267,18 +234,17 @@ def ilstFirst : Bytes :=
    0x00, 0x0c, 0x66, 0x72, 0x65, 0x65, 0x00, 0x00, 0x00, 0x00, 0x00, 0x00, 0x00, 0x0c, 0x6d, 0x64,
    0x61, 0x74, 0x41, 0x41, 0x41, 0x41]
 
-/-- `ilst_first_counterexample`: `_find_padding` looks at `meta.children[index - 1]` with
-`index = 0`, which in Python is the LAST child: the non-adjacent `free` atom (at 46, 12 bytes) is
-taken for padding, the replaced region becomes `[28, 48)` = `ilst` + the foreign atom "xyz " + the
-first two bytes of the `free` atom, and after the save (even one that keeps the length: 20 bytes
-for 20) the foreign atom is gone and the strict walker rejects `meta`'s children.
-(Key `mp4:parent-size:ilst-first-free-last`.) -/
-theorem ilst_first_counterexample :
+/-- `ilst_first_instance`: with `ilst` as the first child of `meta`, `_find_padding` finds no
+adjacent `free` atom (the `free` at the end of `meta` is not adjacent), the replaced region is the
+`ilst` alone, `[28, 36)`, and the save keeps the foreign atom "xyz " and yields a well-formed tree.
+(Before the repair `children[index - 1]` with `index = 0` picked the LAST child and the region
+swallowed the atoms in between; key `mp4:parent-size:ilst-first-free-last`.) -/
+theorem ilst_first_instance :
     (walkFile ilstFirst).isSome = true ∧
-    ((parse ilstFirst).toOption.bind regionOf).map (fun R => (R.offset, R.length)) = some (28, 20) ∧
+    ((parse ilstFirst).toOption.bind regionOf).map (fun R => (R.offset, R.length)) = some (28, 8) ∧
     (saveRegion ilstFirst (fun _ => twoMoofNew)).1 = none ∧
-    (saveRegion ilstFirst (fun _ => twoMoofNew)).2.length = 70 ∧
-    (walkFile (saveRegion ilstFirst (fun _ => twoMoofNew)).2).isSome = false := by
+    (saveRegion ilstFirst (fun _ => twoMoofNew)).2.length = 82 ∧
+    (walkFile (saveRegion ilstFirst (fun _ => twoMoofNew)).2).isSome = true := by
   decide +kernel
 
 /-! ### the hypotheses of `chunk_offsets_follow_partial` are satisfiable -/
@@ -291,7 +257,6 @@ def oneMoofParents : List PAtom := match regionOf oneMoofAtoms with | some R => 
 example :
     (saveAt oneMoof oneMoofAtoms oneMoofParents 28 8 twoMoofNew).1 = none ∧
     (oneMoofAtoms.filter (·.name = nMoov)).length = 1 ∧
-    (oneMoofAtoms.filter (·.name = nMoof)).length ≤ 1 ∧
     SaveSafe oneMoof oneMoofAtoms oneMoofParents 28 8 12 ∧
     (allTables oneMoofAtoms).length = 1 ∧
     MediaClear oneMoofParents oneMoofAtoms 28 8 12 84 4 := by
